@@ -188,6 +188,52 @@ class ProbObserver(l1.Observer):
                                f"(max diff {np.max(np.abs(got - expf)) if got.shape == expf.shape else 'shape'})")
 
 
+    def on_pick(self, run, md, before, rec):
+        """The job handed to a free worker is drawn with the swap probabilities: the (path, ensemble) pair with
+        weights P of the state before the pick; the partner of a zero swap with the column of P of the state
+        after the first path has been moved into its ensemble and that ensemble has become busy."""
+        draws = [d for d in getattr(run, "last_draws", []) if d[0].startswith("pick.choice") and d[2] is not None]
+        if not draws:
+            return
+        st = run.state
+        n = st.n
+        W = np.array(before["W"], dtype=float)
+        locks = [int(x) for x in before["locks"]]
+
+        def exact(Wm, lk):
+            e = rp.swap_probabilities([[Fraction(float(abs(x))) for x in row] for row in Wm], lk)
+            return None if e is None else np.array([[float(x) for x in r] for r in e])
+
+        lab, c, w = draws[0]
+        if len(w) != n * n:
+            return
+        P = exact(W, locks)
+        if P is None:
+            return
+        w = np.array(w, dtype=float)
+        if np.max(np.abs(w / w.sum() - P.flatten() / P.sum())) > 1e-9:
+            raise l1.Violation("l1:pick-not-drawn-with-P", "the (path, ensemble) pair of a new job is not drawn with the swap probabilities of the state")
+        if len(draws) > 1:
+            traj, ens = divmod(int(c), n)
+            lab2, c2, w2 = draws[1]
+            if len(w2) != n:
+                return
+            W2 = W.copy()
+            W2[[traj, ens]] = W2[[ens, traj]]
+            lk2 = list(locks)
+            lk2[ens] = 1
+            other = st._offset - 1 if ens == st._offset else st._offset
+            P2 = exact(W2, lk2)
+            if P2 is None:
+                return
+            col = P2[:, other]
+            w2 = np.array(w2, dtype=float)
+            if np.max(np.abs(w2 / w2.sum() - col / col.sum())) > 1e-9:
+                raise l1.Violation("l1:zero-swap-partner-not-drawn-with-P",
+                                   f"the partner path of a zero swap (for ensemble index {other}) is drawn with weights {np.round(w2 / w2.sum(), 6).tolist()} "
+                                   f"but the column of P gives {np.round(col / col.sum(), 6).tolist()}")
+
+
 def _l1_job(args):
     spec_json, max_states = args
     spec = l1.spec_from_json(spec_json)
@@ -242,7 +288,9 @@ def run(ctx):
     for key, c in routes.items():
         ctx.distinct(("route",) + key)
     # L1 part
-    specs = [l1.Spec(B=3, workers=2), l1.Spec(B=4, workers=2), l1.Spec(B=3, workers=2, moves=["sh", "wf", "wf"], alphabet="ha")]
+    # (one worker: every ensemble is idle at each draw, so the idle block is as large and as asymmetric as it gets)
+    specs = [l1.Spec(B=3, workers=2), l1.Spec(B=4, workers=2), l1.Spec(B=4, workers=1),
+             l1.Spec(B=3, workers=2, moves=["sh", "wf", "wf"], alphabet="ha")]
     if not ctx.quick:
         specs += [l1.Spec(B=4, workers=3), l1.Spec(B=4, workers=2, moves=["sh", "sh", "wf", "wf"], alphabet="ha"), l1.Spec(B=5, workers=2)]
     l1_states = l1_tr = 0
